@@ -123,53 +123,41 @@ theorem splitVU_prog (hr : IsRN q r) (f : Fmt) (cb : Nat) {s : ℕ} (hC : (decod
   rw [evalQ_splitVU f r _ _ cb hC]
   exact ⟨_, _, rfl, veltkamp' hr hs1 hsp hk1 hk2 he⟩
 
-theorem evalQ_splitVScale (f : Fmt) (r : ℚ → ℚ) (x C Xm iN N : ℚ) (xmb zb oneb cb invb nb : Nat)
-    (hC : (decode f cb).toRat? = some C) (hXm : (decode f xmb).toRat? = some Xm) (hZ : (decode f zb).toRat? = some 0)
-    (h1 : (decode f oneb).toRat? = some 1) (hi : (decode f invb).toRat? = some iN) (hN : (decode f nb).toRat? = some N) :
-    evalQ f r (splitVScale xmb zb oneb cb invb nb) splitVScaleOuts [x] =
-      (let ax := if x < 0 then -x else x
-       let xn := if ax < 1 then x else r (iN * x)
-       let g := r (C * xn)
-       let gd := r (g - r (g - xn))
-       let xh := if Xm < ax then (if x < 0 then -Xm else Xm) else (if ax < 1 then gd else r (gd * N))
-       some [xh, r (x - xh)]) := by
-  simp [evalQ, evalNodesQ, evalNodeQ, splitVScale, splitVScaleOuts, hC, hXm, hZ, h1, hi, hN, q2b]
-  split_ifs <;> first | rfl | (exfalso; linarith) | simp_all
+lemma ite_q2b {α : Type} (P : Prop) [Decidable P] (a b : α) : (if q2b (decide P) ≠ 0 then a else b) = if P then a else b := by
+  by_cases h : P <;> simp [h, q2b]
 
-/-- **The scaled splitter** (`split_veltkamp(x, scale=True)`) on every normal |x| ≤ x_max: the scaling by
-1/N = 2^−t and back by N = 2^t is exact, so the halves have the same properties as without scaling. -/
-theorem splitVScale_prog (hr : IsRN q r) (f : Fmt) (xmb zb oneb cb invb nb : Nat) {s t : ℕ} (Xm : ℚ)
-    (hC : (decode f cb).toRat? = some (2 ^ s + 1)) (hXm : (decode f xmb).toRat? = some Xm) (hZ : (decode f zb).toRat? = some 0)
-    (h1 : (decode f oneb).toRat? = some 1) (hi : (decode f invb).toRat? = some (1 / 2 ^ t)) (hN : (decode f nb).toRat? = some (2 ^ t))
-    (hs1 : 1 ≤ s) (hsp : s < q.p) {k e : ℤ} (hk1 : 2 ^ (q.p - 1) ≤ |k|) (hk2 : |k| < 2 ^ q.p) (he : q.emin ≤ e - t)
-    (hxm : |(k : ℚ) * 2 ^ e| ≤ Xm) :
-    ∃ xh xl : ℚ, evalQ f r (splitVScale xmb zb oneb cb invb nb) splitVScaleOuts [(k : ℚ) * 2 ^ e] = some [xh, xl] ∧
-      xh + xl = (k : ℚ) * 2 ^ e ∧ Mult (e + s) xh ∧ |xh| ≤ 2 ^ q.p * 2 ^ e ∧ Mult e xl ∧ |xl| ≤ 2 ^ (e + s) / 2 := by
-  rw [evalQ_splitVScale f r _ _ Xm _ _ xmb zb oneb cb invb nb hC hXm hZ h1 hi hN]
-  set x : ℚ := (k : ℚ) * 2 ^ e with hx
-  have habs : (if x < 0 then -x else x) = |x| := by
-    split
-    · rw [abs_of_neg ‹_›]
-    · rw [abs_of_nonneg (not_lt.mp ‹_›)]
-  simp only [habs]
+/-- the scaled splitter as a function on ℚ -/
+def scaledSplitQ (r : ℚ → ℚ) (C Xm iN N x : ℚ) : ℚ × ℚ :=
+  let xn := if |x| < 1 then x else r (iN * x)
+  let g := r (C * xn)
+  let gd := r (g - r (g - xn))
+  let xh := if Xm < |x| then (if x < 0 then -Xm else Xm) else (if |x| < 1 then gd else r (gd * N))
+  (xh, r (x - xh))
+
+/-- **The scaled splitter** on every normal |x| ≤ x_max: scaling by 2^−t and back is exact. -/
+theorem veltkamp_scaled (hr : IsRN q r) {s t : ℕ} (Xm : ℚ) (hs1 : 1 ≤ s) (hsp : s < q.p) {k e : ℤ}
+    (hk1 : 2 ^ (q.p - 1) ≤ |k|) (hk2 : |k| < 2 ^ q.p) (he : q.emin ≤ e - t) (hxm : |(k : ℚ) * 2 ^ e| ≤ Xm) :
+    let xs := scaledSplitQ r (2 ^ s + 1) Xm (1 / 2 ^ t) (2 ^ t) ((k : ℚ) * 2 ^ e)
+    xs.1 + xs.2 = (k : ℚ) * 2 ^ e ∧ Mult (e + s) xs.1 ∧ |xs.1| ≤ 2 ^ q.p * 2 ^ e ∧ Mult e xs.2 ∧ |xs.2| ≤ 2 ^ (e + s) / 2 := by
+  obtain ⟨x, hx⟩ : ∃ x : ℚ, x = (k : ℚ) * 2 ^ e := ⟨_, rfl⟩
+  rw [← hx] at hxm ⊢
+  intro xs
   have hnot : ¬ (Xm < |x|) := not_lt.mpr hxm
-  simp only [hnot, if_false]
   by_cases hlt : |x| < 1
-  · -- no scaling
-    simp only [hlt, if_true]
-    have he' : q.emin ≤ e := by have : (0 : ℤ) ≤ t := Int.natCast_nonneg t; omega
-    exact ⟨_, _, rfl, veltkamp hr hs1 hsp hk1 hk2 he'⟩
-  · simp only [hlt, if_false]
-    -- x_n = x·2^−t = k·2^(e−t), exactly
-    have h2t : (0 : ℚ) < 2 ^ t := by positivity
+  · have he' : q.emin ≤ e := by have : (0 : ℤ) ≤ t := Int.natCast_nonneg t; omega
+    have := veltkamp hr hs1 hsp hk1 hk2 he'
+    simp only [← hx] at this
+    simp only [xs, scaledSplitQ, hnot, hlt, if_true, if_false]
+    exact this
+  · have h2t : (0 : ℚ) < 2 ^ t := by positivity
     have hxn : (1 / 2 ^ t : ℚ) * x = (k : ℚ) * 2 ^ (e - t) := by
       rw [hx, zpow_sub₀ (by norm_num : (2 : ℚ) ≠ 0), zpow_natCast]; field_simp
     have hrep_xn : Rep q ((k : ℚ) * 2 ^ (e - t)) := ⟨k, e - t, rfl, hk2, he⟩
+    simp only [xs, scaledSplitQ, hnot, hlt, if_false]
     rw [hxn, rn_id hr hrep_xn]
     obtain ⟨a1, a2, a3, a4, a5⟩ := veltkamp hr hs1 hsp hk1 hk2 he
     generalize r (r ((2 ^ s + 1) * ((k : ℚ) * 2 ^ (e - ↑t))) - r (r ((2 ^ s + 1) * ((k : ℚ) * 2 ^ (e - ↑t))) - (k : ℚ) * 2 ^ (e - ↑t))) = gh at *
     generalize r ((k : ℚ) * 2 ^ (e - ↑t) - gh) = gl at *
-    -- scale back
     have hsc : ∀ {j : ℤ} {z : ℚ}, Mult (j - t) z → Mult j (z * 2 ^ t) := by
       intro j z hz
       obtain ⟨m, rfl⟩ := hz
@@ -210,7 +198,109 @@ theorem splitVScale_prog (hr : IsRN q r) (f : Fmt) (xmb zb oneb cb invb nb : Nat
       have h2e' : (0 : ℚ) < 2 ^ e := zpow_pos (by norm_num) _
       nlinarith [mul_pos h2e' (by positivity : (0 : ℚ) < 2 ^ s)]
     rw [hxl_eq, rn_id hr hrep_xl]
-    exact ⟨_, _, rfl, by rw [← hxl_eq]; ring, hM, hB, hMl, hBl⟩
+    exact ⟨by rw [← hxl_eq]; ring, hM, hB, hMl, hBl⟩
+
+theorem evalQ_splitVScale (f : Fmt) (r : ℚ → ℚ) (x C Xm iN N : ℚ) (xmb zb oneb cb invb nb : Nat)
+    (hC : (decode f cb).toRat? = some C) (hXm : (decode f xmb).toRat? = some Xm) (hZ : (decode f zb).toRat? = some 0)
+    (h1 : (decode f oneb).toRat? = some 1) (hi : (decode f invb).toRat? = some iN) (hN : (decode f nb).toRat? = some N) :
+    evalQ f r (splitVScale xmb zb oneb cb invb nb) splitVScaleOuts [x] =
+      (let ax := if x < 0 then -x else x
+       let xn := if ax < 1 then x else r (iN * x)
+       let g := r (C * xn)
+       let gd := r (g - r (g - xn))
+       let xh := if Xm < ax then (if x < 0 then -Xm else Xm) else (if ax < 1 then gd else r (gd * N))
+       some [xh, r (x - xh)]) := by
+  simp only [evalQ, evalNodesQ, evalNodeQ, splitVScale, splitVScaleOuts, hC, hXm, hZ, h1, hi, hN, List.getElem?_cons_zero,
+    List.getElem?_cons_succ, List.nil_append, List.cons_append, Option.bind_eq_bind, Option.bind_some, List.mapM_cons, List.mapM_nil,
+    ite_q2b, Option.pure_def, Option.bind_some]
+
+/-- the scaled splitter as a program -/
+theorem splitVScale_prog (hr : IsRN q r) (f : Fmt) (xmb zb oneb cb invb nb : Nat) {s t : ℕ} (Xm : ℚ)
+    (hC : (decode f cb).toRat? = some (2 ^ s + 1)) (hXm : (decode f xmb).toRat? = some Xm) (hZ : (decode f zb).toRat? = some 0)
+    (h1 : (decode f oneb).toRat? = some 1) (hi : (decode f invb).toRat? = some (1 / 2 ^ t)) (hN : (decode f nb).toRat? = some (2 ^ t))
+    (hs1 : 1 ≤ s) (hsp : s < q.p) {k e : ℤ} (hk1 : 2 ^ (q.p - 1) ≤ |k|) (hk2 : |k| < 2 ^ q.p) (he : q.emin ≤ e - t)
+    (hxm : |(k : ℚ) * 2 ^ e| ≤ Xm) :
+    ∃ xh xl : ℚ, evalQ f r (splitVScale xmb zb oneb cb invb nb) splitVScaleOuts [(k : ℚ) * 2 ^ e] = some [xh, xl] ∧
+      xh + xl = (k : ℚ) * 2 ^ e ∧ Mult (e + s) xh ∧ |xh| ≤ 2 ^ q.p * 2 ^ e ∧ Mult e xl ∧ |xl| ≤ 2 ^ (e + s) / 2 := by
+  rw [evalQ_splitVScale f r _ _ Xm _ _ xmb zb oneb cb invb nb hC hXm hZ h1 hi hN]
+  have habs : ∀ z : ℚ, (if z < 0 then -z else z) = |z| := by
+    intro z; split
+    · rw [abs_of_neg ‹_›]
+    · rw [abs_of_nonneg (not_lt.mp ‹_›)]
+  simp only [habs]
+  have := veltkamp_scaled hr Xm hs1 hsp hk1 hk2 he hxm
+  simp only [scaledSplitQ] at this
+  exact ⟨_, _, rfl, this⟩
+
+set_option maxHeartbeats 2000000 in
+theorem evalQ_mulDekkerScale (f : Fmt) (r : ℚ → ℚ) (x y C Xm iN N : ℚ) (xmb zb oneb cb invb nb : Nat)
+    (hC : (decode f cb).toRat? = some C) (hXm : (decode f xmb).toRat? = some Xm) (hZ : (decode f zb).toRat? = some 0)
+    (h1 : (decode f oneb).toRat? = some 1) (hi : (decode f invb).toRat? = some iN) (hN : (decode f nb).toRat? = some N) :
+    evalQ f r (mulDekkerScale xmb zb oneb cb invb nb) mulDekkerScaleOuts [x, y] =
+      (let ax := if x < 0 then -x else x
+       let xn := if ax < 1 then x else r (iN * x)
+       let gx := r (C * xn)
+       let gdx := r (gx - r (gx - xn))
+       let xh := if Xm < ax then (if x < 0 then -Xm else Xm) else (if ax < 1 then gdx else r (gdx * N))
+       let ay := if y < 0 then -y else y
+       let yn := if ay < 1 then y else r (y * iN)
+       let gy := r (C * yn)
+       let gdy := r (gy - r (gy - yn))
+       let yh := if Xm < ay then (if y < 0 then -Xm else Xm) else (if ay < 1 then gdy else r (N * gdy))
+       let yl := r (y - yh)
+       let xl := r (x - xh)
+       let h := r (y * x)
+       let t1 := r (r (yh * xh) + -h)
+       let t2 := r (r (xh * yl) + t1)
+       let t3 := r (t2 + r (yh * xl))
+       some [h, r (t3 + r (yl * xl))]) := by
+  simp only [evalQ, evalNodesQ, evalNodeQ, mulDekkerScale, mulDekkerScaleOuts, hC, hXm, hZ, h1, hi, hN, List.getElem?_cons_zero,
+    List.getElem?_cons_succ, List.nil_append, List.cons_append, Option.bind_eq_bind, Option.bind_some, List.mapM_cons, List.mapM_nil,
+    ite_q2b, Option.pure_def, Option.bind_some]
+
+/-- **Dekker's product with the default options** (`mul_dekker(scale=True)`): for normal operands with
+|x|, |y| ≤ x_max whose product's error term cannot underflow: h = RN(x·y), h + l = x·y exactly. -/
+theorem mulDekkerScale_prog (hr : IsRN q r) (f : Fmt) (xmb zb oneb cb invb nb : Nat) {s t : ℕ} (Xm : ℚ)
+    (hC : (decode f cb).toRat? = some (2 ^ s + 1)) (hXm : (decode f xmb).toRat? = some Xm) (hZ : (decode f zb).toRat? = some 0)
+    (h1 : (decode f oneb).toRat? = some 1) (hi : (decode f invb).toRat? = some (1 / 2 ^ t)) (hN : (decode f nb).toRat? = some (2 ^ t))
+    (h2s : q.p ≤ 2 * s) (h2s2 : 2 * s ≤ q.p + 2) (hs2 : s + 2 ≤ q.p)
+    {kx ky ex ey : ℤ} (hkx1 : 2 ^ (q.p - 1) ≤ |kx|) (hkx2 : |kx| < 2 ^ q.p) (hky1 : 2 ^ (q.p - 1) ≤ |ky|) (hky2 : |ky| < 2 ^ q.p)
+    (hex : q.emin ≤ ex - t) (hey : q.emin ≤ ey - t) (he : q.emin ≤ ex + ey)
+    (x y : ℚ) (hx : x = (kx : ℚ) * 2 ^ ex) (hy : y = (ky : ℚ) * 2 ^ ey) (hxm : |x| ≤ Xm) (hym : |y| ≤ Xm) :
+    evalQ f r (mulDekkerScale xmb zb oneb cb invb nb) mulDekkerScaleOuts [x, y] = some [r (x * y), x * y - r (x * y)] := by
+  rw [evalQ_mulDekkerScale f r _ _ _ Xm _ _ xmb zb oneb cb invb nb hC hXm hZ h1 hi hN]
+  have hs1 : 1 ≤ s := by omega
+  have hsp : s < q.p := by omega
+  have habs : ∀ z : ℚ, (if z < 0 then -z else z) = |z| := by
+    intro z; split
+    · rw [abs_of_neg ‹_›]
+    · rw [abs_of_nonneg (not_lt.mp ‹_›)]
+  have A := veltkamp_scaled hr Xm hs1 hsp hkx1 hkx2 hex (by rw [← hx]; exact hxm)
+  have B := veltkamp_scaled hr Xm hs1 hsp hky1 hky2 hey (by rw [← hy]; exact hym)
+  simp only [scaledSplitQ, ← hx, ← hy] at A B
+  obtain ⟨a1, a2, a3, a4, a5⟩ := A
+  obtain ⟨b1, b2, b3, b4, b5⟩ := B
+  have hex' : q.emin ≤ ex := by have : (0 : ℤ) ≤ t := Int.natCast_nonneg t; omega
+  have hey' : q.emin ≤ ey := by have : (0 : ℤ) ≤ t := Int.natCast_nonneg t; omega
+  simp only [habs, mul_comm y (1 / 2 ^ t), mul_comm ((2 : ℚ) ^ t) _]
+  rw [mul_comm y x]
+  generalize (if Xm < |x| then if x < 0 then -Xm else Xm else if |x| < 1 then
+      r (r ((2 ^ s + 1) * if |x| < 1 then x else r (1 / 2 ^ t * x)) - r (r ((2 ^ s + 1) * if |x| < 1 then x else r (1 / 2 ^ t * x)) - if |x| < 1 then x else r (1 / 2 ^ t * x)))
+      else r (r (r ((2 ^ s + 1) * if |x| < 1 then x else r (1 / 2 ^ t * x)) - r (r ((2 ^ s + 1) * if |x| < 1 then x else r (1 / 2 ^ t * x)) - if |x| < 1 then x else r (1 / 2 ^ t * x))) * 2 ^ t)) = xh at *
+  generalize (if Xm < |y| then if y < 0 then -Xm else Xm else if |y| < 1 then
+      r (r ((2 ^ s + 1) * if |y| < 1 then y else r (1 / 2 ^ t * y)) - r (r ((2 ^ s + 1) * if |y| < 1 then y else r (1 / 2 ^ t * y)) - if |y| < 1 then y else r (1 / 2 ^ t * y)))
+      else r (r (r ((2 ^ s + 1) * if |y| < 1 then y else r (1 / 2 ^ t * y)) - r (r ((2 ^ s + 1) * if |y| < 1 then y else r (1 / 2 ^ t * y)) - if |y| < 1 then y else r (1 / 2 ^ t * y))) * 2 ^ t)) = yh at *
+  generalize r (x - xh) = xl at *
+  generalize r (y - yh) = yl at *
+  have a1' : xh + xl = (kx : ℚ) * 2 ^ ex := by rw [← hx]; exact a1
+  have b1' : yh + yl = (ky : ℚ) * 2 ^ ey := by rw [← hy]; exact b1
+  obtain ⟨fA, fB, fC, fD, fT1, fT2, -, fT3, fE, fS⟩ :=
+    dekker_core hr h2s h2s2 hs2 hkx1 hkx2 hky1 hky2 he a1' a2 a3 a4 a5 b1' b2 b3 b4 b5
+  simp only [← hx, ← hy] at fA fB fC fD fT1 fT2 fT3 fE fS
+  generalize r (x * y) = h at *
+  rw [mul_comm yh xh, rn_id hr fA, ← sub_eq_add_neg, rn_id hr fT1, rn_id hr fB,
+    add_comm (xh * yl), rn_id hr fT2, mul_comm yh xl, rn_id hr fC, rn_id hr fT3, mul_comm yl xl, rn_id hr fD,
+    show xh * yh - h + xh * yl + xl * yh + xl * yl = x * y - h by rw [fS]; ring, rn_id hr fE]
 
 theorem evalQ_mulDekker (f : Fmt) (r : ℚ → ℚ) (x y C : ℚ) (cb : Nat) (hC : (decode f cb).toRat? = some C) :
     evalQ f r (mulDekker cb) mulDekkerOuts [x, y] =
